@@ -235,4 +235,170 @@ theorem checkmultisig_bad_message (verify : Bytes → Bytes → Bytes → Bool) 
   simp only [cmsStack, cmsSpec, hn, a1, a2, if_false, cmsSpec1, hm, a3, a4, cmsSpec2, hl, hdrop, hmsg, ne_eq,
     not_false_eq_true, if_true]
 
+/-! ### P2WSH -/
+
+/-- **P2SH program with any redeem script**: exact verdict, given what the script's own run
+    (as the CHECKPREDICATE child, on the remaining witness items) yields -/
+theorem p2wsh_spend_verdict (cr : Crypto) (hl : HashLens cr) (co : Option CheckOutputFn) (txVersion blockHeight : Nat)
+    (h sigHash : Bytes) (hh : h.length = 32) (s : SpendInfo) (hcode : s.code = p2shCode h) (hv : s.vmVersion = 1)
+    (G : Int) (K : Nat) (childOk : Bytes → List Bytes → Bool)
+    (hchild : ∀ script rest L, s.args.reverse = script :: rest → cr.sha3 script = h →
+      G - stackCost List.length s.stateData - 3 * stackCost List.length s.args - 800 ≤ L → 0 ≤ L →
+      ∃ k g f' er, k ≤ K ∧
+        FSteps (spendContext cr co txVersion blockHeight sigHash s) k ⟨script, 0, 0, L, 0, rest, [], 1, false⟩ g ∧
+        FFinal (spendContext cr co txVersion blockHeight sigHash s) g f' er ∧
+        (er.isNone && !falseResult valueMem () f') = childOk script rest)
+    (hg : stackCost List.length s.stateData + 3 * stackCost List.length s.args + 800 ≤ G)
+    (fuel : Nat) (hfuel : K + 12 ≤ fuel) :
+    ∃ r, verifySpend cr co fuel txVersion blockHeight sigHash s G = some r ∧
+      r.err = p2shSpec cr.sha3 h childOk s.args :=
+  p2sh_verify h hh (spendContext cr co txVersion blockHeight sigHash s) hcode hv hl.sha3 G K childOk hchild hg fuel hfuel
+
+theorem keyPushes_length (keys : List Bytes) (hk : ∀ k ∈ keys, k.length = 32) : (keyPushes keys).length = 33 * keys.length := by
+  induction keys with
+  | nil => rfl
+  | cons k ks ih =>
+    have h1 := hk k (by simp)
+    have h2 := ih (fun x hx => hk x (by simp [hx]))
+    simp only [keyPushes, List.map_cons, List.flatten_cons, List.length_append, List.length_cons] at h2 ⊢
+    rw [h2, h1]
+    omega
+
+theorem numPush_length (N : Nat) : (numPush N).length ≤ 33 := by
+  unfold numPush
+  split
+  · simp
+  · split
+    · simp
+    · have := bigIntBytes_length_le N
+      simp only [List.length_cons]
+      omega
+
+theorem msCode_length (keys : List Bytes) (m : Nat) (hk : ∀ k ∈ keys, k.length = 32) (hn : keys.length < 2 ^ 24) :
+    (msCode keys m).length ≤ maxInt32 := by
+  have h1 := keyPushes_length keys hk
+  have h2 := numPush_length m
+  have h3 := numPush_length keys.length
+  simp only [msCode, List.length_append, List.length_cons, List.length_nil]
+  unfold maxInt32
+  omega
+
+/-- **P2WSH of the multisig script**: exact verdict for every witness. The committed hash is the
+    hash of `TXSIGHASH <keys…> m n CHECKMULTISIG`; `hpre` says the witness cannot present another
+    script with the same hash (an assumption about SHA3, visible here). -/
+theorem p2wsh_multisig_verdict (cr : Crypto) (hl : HashLens cr) (co : Option CheckOutputFn) (txVersion blockHeight : Nat)
+    (keys : List Bytes) (m : Nat) (sigHash : Bytes) (hk : ∀ k ∈ keys, k.length = 32) (hn : keys.length < 2 ^ 24)
+    (hm : m < two63) (hsl : sigHash.length = 32)
+    (hpre : ∀ x, cr.sha3 x = cr.sha3 (msCode keys m) → x = msCode keys m)
+    (s : SpendInfo) (hcode : s.code = p2shCode (cr.sha3 (msCode keys m))) (hv : s.vmVersion = 1) (G : Int)
+    (hg : stackCost List.length s.stateData + 3 * stackCost List.length s.args + 1100 * (keys.length : Int) + 1300 ≤ G)
+    (fuel : Nat) (hfuel : keys.length + 16 ≤ fuel) :
+    ∃ r, verifySpend cr co fuel txVersion blockHeight sigHash s G = some r ∧
+      r.err = p2shSpec cr.sha3 (cr.sha3 (msCode keys m)) (fun _ rest => msOk cr.verify keys m sigHash rest) s.args := by
+  have hlen := msCode_length keys m hk hn
+  apply p2wsh_spend_verdict cr hl co txVersion blockHeight _ sigHash (hl.sha3 _) s hcode hv G (keys.length + 4)
+  · intro script rest L _ hsha hL _
+    have hscript := hpre script hsha
+    subst hscript
+    exact ms_frame (spendContext cr co txVersion blockHeight sigHash s) keys m sigHash hk rfl hsl
+      (by omega) hm hlen rest 0 L 0 [] 1 false (by omega)
+  · have := stackCost_nonneg s.args
+    omega
+  · omega
+
+/-- the accepting witnesses of the multisig script -/
+theorem msOk_iff (verify : Bytes → Bytes → Bytes → Bool) (keys : List Bytes) (m : Nat) (sigHash : Bytes) (stack : List Bytes)
+    (hk : ∀ k ∈ keys, k.length = 32) (hsl : sigHash.length = 32) (hn : keys.length < 2 ^ 50) (hm : m < two63) :
+    msOk verify keys m sigHash stack = true ↔
+      ∃ extra sigs : List Bytes, stack = sigs.reverse ++ extra.reverse ∧ sigs.length = m ∧ m ≤ keys.length ∧
+        (0 < keys.length → 0 < m) ∧ Embeds (fun p s => verify p sigHash s) sigs keys := by
+  rw [msOk_eq verify keys m sigHash stack hk hsl hn hm]
+  simp only [Bool.and_eq_true, decide_eq_true_eq]
+  constructor
+  · rintro ⟨⟨h1, h2, h3⟩, hmatch⟩
+    refine ⟨(stack.drop m).reverse, (stack.take m).reverse, by simp, by simp [h3], h1, h2, ?_⟩
+    rw [matchSigs_iff] at hmatch
+    rw [← embeds_reverse]
+    simpa using hmatch
+  · rintro ⟨extra, sigs, rfl, hlen, h1, h2, hemb⟩
+    refine ⟨⟨h1, h2, by simp; omega⟩, ?_⟩
+    rw [← hlen, List.take_left' (by simp), matchSigs_iff, embeds_reverse]
+    exact hemb
+
+/-- **P2WSH-multisig spend**: accepted ⇔ the witness is `extra ++ sigs ++ [script]` with the
+    committed script, exactly `m` signatures (`1 ≤ m ≤ n` unless `n = 0`), which embed in order
+    into the committed keys, each verifying for this transaction's signature hash -/
+theorem p2wsh_multisig_spend_iff (cr : Crypto) (hl : HashLens cr) (co : Option CheckOutputFn) (txVersion blockHeight : Nat)
+    (keys : List Bytes) (m : Nat) (sigHash : Bytes) (hk : ∀ k ∈ keys, k.length = 32) (hn : keys.length < 2 ^ 24)
+    (hm : m < two63) (hsl : sigHash.length = 32)
+    (hpre : ∀ x, cr.sha3 x = cr.sha3 (msCode keys m) → x = msCode keys m)
+    (s : SpendInfo) (hcode : s.code = p2shCode (cr.sha3 (msCode keys m))) (hv : s.vmVersion = 1) (G : Int)
+    (hg : stackCost List.length s.stateData + 3 * stackCost List.length s.args + 1100 * (keys.length : Int) + 1300 ≤ G)
+    (fuel : Nat) (hfuel : keys.length + 16 ≤ fuel) :
+    ∃ r, verifySpend cr co fuel txVersion blockHeight sigHash s G = some r ∧
+      (r.err = none ↔ ∃ extra sigs : List Bytes, s.args = extra ++ sigs ++ [msCode keys m] ∧ sigs.length = m ∧ m ≤ keys.length ∧
+        (0 < keys.length → 0 < m) ∧ Embeds (fun p sg => cr.verify p sigHash sg) sigs keys) := by
+  obtain ⟨r, hr, he⟩ := p2wsh_multisig_verdict cr hl co txVersion blockHeight keys m sigHash hk hn hm hsl hpre s hcode hv G hg
+    fuel hfuel
+  refine ⟨r, hr, ?_⟩
+  rw [he]
+  unfold p2shSpec
+  constructor
+  · intro hnone
+    cases hrev : s.args.reverse with
+    | nil => rw [hrev] at hnone; simp at hnone
+    | cons script rest =>
+      rw [hrev] at hnone
+      simp only [] at hnone
+      by_cases hsha : cr.sha3 script = cr.sha3 (msCode keys m)
+      · simp only [hsha, ne_eq, not_true_eq_false, if_false] at hnone
+        by_cases hok : msOk cr.verify keys m sigHash rest = true
+        · obtain ⟨extra, sigs, hst, h1, h2, h3, h4⟩ := (msOk_iff cr.verify keys m sigHash rest hk hsl (by omega) hm).mp hok
+          refine ⟨extra, sigs, ?_, h1, h2, h3, h4⟩
+          have := congrArg List.reverse hrev
+          rw [List.reverse_reverse, hst, hpre script hsha] at this
+          simpa using this
+        · simp [hok] at hnone
+      · simp [hsha] at hnone
+  · rintro ⟨extra, sigs, hargs, h1, h2, h3, h4⟩
+    have hok := (msOk_iff cr.verify keys m sigHash (sigs.reverse ++ extra.reverse) hk hsl (by omega) hm).mpr
+      ⟨extra, sigs, rfl, h1, h2, h3, h4⟩
+    rw [hargs]
+    simp [hok]
+
+/-! ### the verdict depends on the transaction only through the signature hash -/
+
+/-- two spends of P2WPKH outputs with the same committed hash, the same witness and the same
+    signature hash get the same verdict — whatever the rest of the two transactions, the entry
+    ids, amounts, positions, block height, tx version and CheckOutput callback are -/
+theorem witness_only_matters_through_sighash_p2wpkh (cr : Crypto) (hl : HashLens cr) (co co' : Option CheckOutputFn)
+    (txv txv' bh bh' : Nat) (h sigHash : Bytes) (hh : h.length = 20) (hsl : sigHash.length = 32) (s s' : SpendInfo)
+    (hcode : s.code = p2pkhCode h) (hcode' : s'.code = p2pkhCode h) (hv : s.vmVersion = 1) (hv' : s'.vmVersion = 1)
+    (hargs : s.args = s'.args) (G G' : Int)
+    (hg : stackCost List.length s.stateData + 2 * stackCost List.length s.args + 1500 ≤ G)
+    (hg' : stackCost List.length s'.stateData + 2 * stackCost List.length s'.args + 1500 ≤ G')
+    (fuel fuel' : Nat) (hfuel : 8 ≤ fuel) (hfuel' : 8 ≤ fuel') :
+    ∃ r r', verifySpend cr co fuel txv bh sigHash s G = some r ∧ verifySpend cr co' fuel' txv' bh' sigHash s' G' = some r' ∧
+      r.err = r'.err := by
+  obtain ⟨r, hr, he⟩ := p2wpkh_verdict cr hl co txv bh h sigHash hh hsl s hcode hv G hg fuel hfuel
+  obtain ⟨r', hr', he'⟩ := p2wpkh_verdict cr hl co' txv' bh' h sigHash hh hsl s' hcode' hv' G' hg' fuel' hfuel'
+  exact ⟨r, r', hr, hr', by rw [he, he', hargs]⟩
+
+/-- the same for P2WSH-multisig spends -/
+theorem witness_only_matters_through_sighash_multisig (cr : Crypto) (hl : HashLens cr) (co co' : Option CheckOutputFn)
+    (txv txv' bh bh' : Nat) (keys : List Bytes) (m : Nat) (sigHash : Bytes) (hk : ∀ k ∈ keys, k.length = 32)
+    (hn : keys.length < 2 ^ 24) (hm : m < two63) (hsl : sigHash.length = 32)
+    (hpre : ∀ x, cr.sha3 x = cr.sha3 (msCode keys m) → x = msCode keys m) (s s' : SpendInfo)
+    (hcode : s.code = p2shCode (cr.sha3 (msCode keys m))) (hcode' : s'.code = p2shCode (cr.sha3 (msCode keys m)))
+    (hv : s.vmVersion = 1) (hv' : s'.vmVersion = 1) (hargs : s.args = s'.args) (G G' : Int)
+    (hg : stackCost List.length s.stateData + 3 * stackCost List.length s.args + 1100 * (keys.length : Int) + 1300 ≤ G)
+    (hg' : stackCost List.length s'.stateData + 3 * stackCost List.length s'.args + 1100 * (keys.length : Int) + 1300 ≤ G')
+    (fuel fuel' : Nat) (hfuel : keys.length + 16 ≤ fuel) (hfuel' : keys.length + 16 ≤ fuel') :
+    ∃ r r', verifySpend cr co fuel txv bh sigHash s G = some r ∧ verifySpend cr co' fuel' txv' bh' sigHash s' G' = some r' ∧
+      r.err = r'.err := by
+  obtain ⟨r, hr, he⟩ := p2wsh_multisig_verdict cr hl co txv bh keys m sigHash hk hn hm hsl hpre s hcode hv G hg fuel hfuel
+  obtain ⟨r', hr', he'⟩ := p2wsh_multisig_verdict cr hl co' txv' bh' keys m sigHash hk hn hm hsl hpre s' hcode' hv' G' hg'
+    fuel' hfuel'
+  exact ⟨r, r', hr, hr', by rw [he, he', hargs]⟩
+
 end BytomModel.Props.C02
